@@ -73,7 +73,8 @@ LEVEL_TEXT = ('Machine-checked, for all texts, classes of the regenerated table,
               'End to end over the sites (Proofs/C19_e2e.v): a response is labelled text/html only when the HTML form was '
               'negotiated (specification, regenerated program, all raise and message sites, exception_response, constructor '
               'keywords); for the not-found raise sites, the message sites and exception_response of a default-template class the '
-              'bytes of the HTML page are fixed text, the html-escaped request-derived text, fixed text. '
+              'bytes of the HTML page are fixed text, the html-escaped request-derived text, fixed text; class names of the '
+              'regenerated table are unique, so the class exception_response resolves a code to is the class the constructors run on. '
               'Tie to the code: the translator (control flow mechanical, leaves through a primitive table), '
               'regenerated literals/class table, shape pins only for untranslated helpers, and a differential run of the '
               'extracted regenerated program against the real exceptions, Router and static/secured/predicated views.')
